@@ -197,3 +197,36 @@ def meas_circuits(job):
                     "preplen": len(before), "prep": before, "gates": gates, "measures": measures, "ro": ro,
                     "metaok": meta_ok, "unchanged": unchanged, "nq": qc.num_qubits, "what": job["what"], "index": i, "exc": ""})
     return out
+
+
+# ---------------------------------------------------------------------------------------------
+# f2_algebra
+# ---------------------------------------------------------------------------------------------
+def _mat(a):
+    return [[int(x) for x in row] for row in a.tolist()]
+
+
+def f2_calls(job):
+    """job = (rows (list of lists of 0/1), dtype name) -> one `f2` record."""
+    import numpy as np
+    rows, dt = job
+    lib = L()
+    f2 = lib.f2_algebra
+    A = np.array(rows, dtype=getattr(np, dt))
+    m, n = A.shape
+    before = A.copy()
+    rec = {"op": "f2", "m": m, "n": n, "A": rows, "dtype": dt, "exc": ""}
+    try:
+        R, piv = f2.rref(A)
+        rec["R"], rec["piv"] = _mat(np.asarray(R)), [int(p) for p in piv]
+        rec["rank"] = int(f2.rank(A))
+        R2, M, Minv = f2.rref_and_basis_change(A)
+        rec["R2"], rec["M"], rec["Minv"] = _mat(np.asarray(R2)), _mat(np.asarray(M)), _mat(np.asarray(Minv))
+        ns = f2.null_space(A)
+        ns = np.asarray(ns)
+        rec["ns"] = {"ok": 1, "shape": [int(x) for x in ns.shape], "intdtype": 1 if ns.dtype.kind in "iub" else 0,
+                     "rows": _mat(ns) if ns.ndim == 2 else [], "dtype": str(ns.dtype)}
+    except Exception as e:
+        rec["exc"] = exc_name(e) + ": " + str(e)[:200]
+    rec["unchanged"] = 1 if (A.shape == before.shape and (A == before).all() and A.dtype == before.dtype) else 0
+    return rec
